@@ -84,7 +84,9 @@ func histStrings(h []event) []string {
 	return out
 }
 
-func penalised(status int64) bool { return status == 429 || status == 403 || status == 408 || status == 425 }
+func penalised(status int64) bool {
+	return status == 429 || status == 403 || status == 408 || status == 425
+}
 
 func evClass(e event) string {
 	switch e.Kind {
@@ -542,6 +544,7 @@ func runSeq(c config, p seqPlan) *seqResult {
 		}
 		return base
 	}, &res.PerLevel)
+	mainEnd := len(s.nodes)
 	// (2) long failure streaks: n failures of one kind, back to back or 1 s apart, then all histories to StreakSuffix
 	var roots []int32
 	for _, st := range []int64{429, 503} {
@@ -572,9 +575,27 @@ func runSeq(c config, p seqPlan) *seqResult {
 	res.StreakRoots = len(roots)
 	s.bfs(roots, p.StreakSuffix, func(int) []event { return base }, &res.StreakNew)
 	s.replayAll()
-	// samples: a few of the longest histories actually stored
-	for i := len(s.nodes) - 1; i > 0 && len(res.Samples) < 3; i -= 1 + len(s.nodes)/7 {
-		res.Samples = append(res.Samples, histStrings(s.history(int32(i))))
+	// samples: two full-depth histories of phase (1) that contain an acquire and a failure, one short streak history
+	interesting := func(h []event, maxLen int) bool {
+		var acq, fail bool
+		for _, e := range h {
+			acq, fail = acq || e.Kind == 'a', fail || e.Kind == 'f'
+		}
+		return acq && fail && len(h) <= maxLen
+	}
+	for i, step := mainEnd-1, 1+mainEnd/3; i > 1 && len(res.Samples) < 2; i -= step {
+		for ; i > 1; i-- {
+			if h := s.history(int32(i)); interesting(h, p.Depth) {
+				res.Samples = append(res.Samples, histStrings(h))
+				break
+			}
+		}
+	}
+	for i := mainEnd; i < len(s.nodes); i++ {
+		if h := s.history(int32(i)); interesting(h, 12) && len(h) >= 8 {
+			res.Samples = append(res.Samples, histStrings(h))
+			break
+		}
 	}
 	return res
 }
